@@ -825,38 +825,6 @@ func (ip *Interp) mapDelete(m *MapV, key Value) {
 	}
 }
 
-// ---- channels (no goroutines: a blocking operation ends the path) ----
-
-func (ip *Interp) chanSend(cv Value, v Value) {
-	c, ok := cv.(*ChanV)
-	if !ok || c == nil {
-		panic(pathEnd{"block", "send on nil channel"})
-	}
-	if c.closed {
-		ip.goPanic("send on closed channel")
-	}
-	if len(c.buf) >= c.cap {
-		panic(pathEnd{"block", "send would block (no goroutines in this engine)"})
-	}
-	c.buf = append(c.buf, copyVal(v))
-}
-
-func (ip *Interp) chanRecv(cv Value) (Value, bool) {
-	c, ok := cv.(*ChanV)
-	if !ok || c == nil {
-		panic(pathEnd{"block", "receive on nil channel"})
-	}
-	if len(c.buf) > 0 {
-		v := c.buf[0]
-		c.buf = c.buf[1:]
-		return v, true
-	}
-	if c.closed {
-		return ip.zero(c.elem), false
-	}
-	panic(pathEnd{"block", "receive would block (no goroutines in this engine)"})
-}
-
 // ---- builtins ----
 
 func (ip *Interp) callBuiltin(b *ssa.Builtin, args []Value, site ssa.Instruction) Value {
